@@ -287,7 +287,12 @@ Definition d_insert_key (t k : Z) (s : tsd) : nat * bool * tsd :=
               else if c_valid (child_at s3 i)
                    then d_set_bits s3 (set_nth i true (d_add s3)) (d_rem s3) (d_mod s3) (set_nth i true (d_pub s3))
                    else s3 in
-    (i, true, mkD (d_ks s4) (d_ch s4) (d_add s4) (d_rem s4) (d_mod s4) (d_pub s4) (d_dt s4) (d_lmt s4) (rec_mod t (d_kslmt s4))).
+    (* restore_modified_on_resurrection (the repair of KF-tsd-set-erase-set-C05): a resurrected, published
+       child that was already modified in this cycle is reported as modified again *)
+    let s5 := if negb (ir_constructed r) && bit i (d_pub s4) && (c_lmt (child_at s4 i) =? t)
+              then d_set_bits s4 (d_add s4) (d_rem s4) (set_nth i true (d_mod s4)) (d_pub s4)
+              else s4 in
+    (i, true, mkD (d_ks s5) (d_ch s5) (d_add s5) (d_rem s5) (d_mod s5) (d_pub s5) (d_dt s5) (d_lmt s5) (rec_mod t (d_kslmt s5))).
 
 Definition d_remove_key (t k : Z) (s : tsd) : bool * tsd :=
   let s1 := d_prepare t s in
